@@ -184,7 +184,7 @@ CLAIMED = {
              "the kernel-validated Coq ISA model on packets of every length around the guard; final packet and locals must equal the model's (all cases) "
              "and struct.pack/unpack's (oracle); an access outside the packet faults.",
         note=TB + "Partial: register allocation / instruction emission are not modelled (tie by execution, sampled); packet array accessors pB/pH/pI/pQ with "
-             "register offsets are not exercised.",
+             "register offsets are exercised by directed cases that the struct oracle decides (the model has no indexed reads).",
         technique="Coq proof about byte-level load/store/guard composition + execution of real generated XDP code in a kernel-validated ISA model",
         ref="5/C07"),
     "C06": dict(
